@@ -682,6 +682,8 @@ class ResolverInterp(Interp):
                 return None
             if fn[1] == "set" and not pos and not kw:
                 return set()
+            if head == "Power":
+                return Sym(f"{fn[1]}(...)")  # some other power value, never the stored / fresh one
             if fn[1] == "len" and len(pos) == 1 and pos[0] is self.bucket_obj:
                 return 1 if self.truth_of(pos[0], node) else 0
             raise AnalysisError(f"Matryoshka: call of {fn[1]} not modelled (line {getattr(node, 'lineno', '?')})")
@@ -892,6 +894,30 @@ def structural_controls(prog: Program, actor: str, module: str,
                 built["resolver skips an emptied bucket"] = _splice(
                     mmod.source, n.test, f"not self._component_buckets.get({_seg(mmod.source, n.test.left)})")
                 break
+    # 6. the reports after a recomputation in the event loop are dropped
+    rn = method("_run")
+    for fi in (reachable_methods(prog, cls, rn, stop) if rn is not None else []):
+        if fi.module is not mod:
+            continue
+        for n in ast.walk(fi.node):
+            for field in ("body", "orelse"):
+                suite = getattr(n, field, None)
+                if not (isinstance(suite, list) and suite and isinstance(suite[0], ast.stmt)):
+                    continue
+                for a, b in zip(suite, suite[1:]):
+                    if isinstance(a, ast.Expr) and isinstance(b, ast.Expr) \
+                            and "_send_updated_target_power" in ast.unparse(a) and "_send_reports" in ast.unparse(b) \
+                            and "reports dropped after a proposal" not in built:
+                        built["reports dropped after a proposal"] = _splice(src, b, "pass")
+    # 7. the report carries something else than the stored target
+    gs = prog.cls(MATRYOSHKA).methods.get("get_status")
+    if gs is not None:
+        for n in walk_no_nested(gs.node):
+            if isinstance(n, ast.Call) and ast.unparse(n.func).split(".")[-1] == "_Report":
+                kw = next((k for k in n.keywords if k.arg == "target_power"), None)
+                if kw is not None:
+                    built["report target is not the stored target"] = _splice(mmod.source, kw.value, "None")
+                    break
     out = []
     for name, module_, old, new, rule in fallback:
         base = sources.get(module_, src)
